@@ -23,19 +23,24 @@ func nodeHash(l, r Hash) Hash {
 	return sha256.Sum256(b)
 }
 
-// Record i of the log with the given seed; lengths vary and include empty records.
+// Record i of the log with the given seed; lengths vary: empty, short, around hash block boundaries, long.
 func RecordData(seed int64, i int64) []byte {
 	var b [16]byte
 	binary.LittleEndian.PutUint64(b[:8], uint64(seed))
 	binary.LittleEndian.PutUint64(b[8:], uint64(i))
 	h := sha256.Sum256(b[:])
 	n := int(h[0]) % 40
-	if h[1]%16 == 0 {
+	switch h[1] % 16 {
+	case 0:
 		n = 0
+	case 1, 2, 3:
+		// lengths around the SHA-256 block and padding boundaries, and some long records
+		special := []int{54, 55, 56, 57, 62, 63, 64, 65, 66, 118, 119, 120, 127, 128, 129, 191, 192, 193, 255, 256, 257, 300, 1000}
+		n = special[int(h[2])%len(special)]
 	}
 	out := make([]byte, 0, n)
 	for len(out) < n {
-		out = append(out, h[2+len(out)%30])
+		out = append(out, h[3+len(out)%29]^byte(len(out)/29))
 	}
 	return out
 }
